@@ -2505,3 +2505,99 @@ def inline_class_constants(module, known_class_names):
     if count[0]:
         relink(tree, None)
     return count[0]
+
+
+def numbered_groups(module):
+    """`m.group("status")` -> `m.group(1)`, `m["text"]` / `m[2]` -> `m.group(2)`, for a match object `m` obtained in the same function
+    from a pattern whose text is known (a compiled attribute / constant of the module, or a pattern written at the call).  The group
+    names are read off the pattern text by the standard regex PARSER (nothing is compiled or run).  Returns the number of rewrites."""
+    import re as _re
+    try:
+        parser = _re._parser
+    except AttributeError:  # pragma: no cover
+        import sre_parse as parser
+    tree = module.tree
+    pats = {}  # attribute / global name -> pattern constant
+
+    def const_pat(e):
+        if isinstance(e, ast.Constant) and isinstance(e.value, (bytes, str)):
+            return e.value
+        return None
+    for n in ast.walk(tree):
+        if isinstance(n, (ast.Assign, ast.AnnAssign)) and isinstance(n.value, ast.Call) and isinstance(n.value.func, ast.Attribute) \
+                and n.value.func.attr == "compile" and isinstance(n.value.func.value, ast.Name) and n.value.func.value.id == "re" and n.value.args:
+            p = const_pat(n.value.args[0])
+            for t in (n.targets if isinstance(n, ast.Assign) else [n.target]):
+                key = t.attr if isinstance(t, ast.Attribute) else (t.id if isinstance(t, ast.Name) else None)
+                if key is not None:
+                    pats[key] = p if key not in pats or pats[key] == p else None
+
+    def groupdict(p):
+        if p is None:
+            return None
+        try:
+            return dict(parser.parse(p).state.groupdict)
+        except Exception:
+            return None
+
+    def pattern_of_call(c):
+        """pattern text of `<regex>.match(...)` / `re.match(<pat>, ...)`"""
+        if not (isinstance(c, ast.Call) and isinstance(c.func, ast.Attribute) and c.func.attr in ("match", "search", "fullmatch")):
+            return None
+        r = c.func.value
+        if isinstance(r, ast.Name) and r.id == "re" and c.args:
+            return const_pat(c.args[0])
+        if isinstance(r, ast.Call) and isinstance(r.func, ast.Attribute) and r.func.attr == "compile" and r.args:
+            return const_pat(r.args[0])
+        key = r.attr if isinstance(r, ast.Attribute) else (r.id if isinstance(r, ast.Name) else None)
+        return pats.get(key)
+    count = [0]
+    for fn in ast.walk(tree):
+        if not isinstance(fn, (ast.FunctionDef, ast.AsyncFunctionDef)):
+            continue
+        defs = {}
+        for a in _walk_no_defs(fn):
+            if isinstance(a, ast.Assign) and len(a.targets) == 1 and isinstance(a.targets[0], ast.Name):
+                defs.setdefault(a.targets[0].id, []).append(a.value)
+            elif isinstance(a, ast.NamedExpr) and isinstance(a.target, ast.Name):
+                defs.setdefault(a.target.id, []).append(a.value)
+        maps = {}
+        for v, vals in defs.items():
+            gds = [groupdict(pattern_of_call(x)) for x in vals]
+            if gds and all(g is not None for g in gds):
+                # one variable may hold the matches of several patterns in turn: a group name is resolved when every pattern
+                # that has a group of that name gives it the same number
+                merged = {}
+                for g in gds:
+                    for k, i in g.items():
+                        merged.setdefault(k, set()).add(i)
+                maps[v] = {k: next(iter(i)) for k, i in merged.items() if len(i) == 1}
+        if not maps:
+            continue
+
+        class T(ast.NodeTransformer):
+            def visit_Call(self, c):
+                self.generic_visit(c)
+                if isinstance(c.func, ast.Attribute) and c.func.attr == "group" and isinstance(c.func.value, ast.Name) and c.func.value.id in maps \
+                        and len(c.args) == 1 and isinstance(c.args[0], ast.Constant) and isinstance(c.args[0].value, str) \
+                        and c.args[0].value in maps[c.func.value.id]:
+                    c.args[0] = ast.copy_location(ast.Constant(value=maps[c.func.value.id][c.args[0].value]), c.args[0])
+                    count[0] += 1
+                return c
+
+            def visit_Subscript(self, n):
+                self.generic_visit(n)
+                if isinstance(n.ctx, ast.Load) and isinstance(n.value, ast.Name) and n.value.id in maps and isinstance(n.slice, ast.Constant):
+                    k = n.slice.value
+                    if isinstance(k, str) and k in maps[n.value.id]:
+                        k = maps[n.value.id][k]
+                    if isinstance(k, int) and not isinstance(k, bool):
+                        count[0] += 1
+                        return ast.copy_location(ast.Call(func=ast.Attribute(value=n.value, attr="group", ctx=ast.Load()),
+                                                          args=[ast.Constant(value=k)], keywords=[]), n)
+                return n
+        T().visit(fn)
+        ast.fix_missing_locations(fn)
+    if count[0]:
+        relink(tree, None)
+    return count[0]
